@@ -95,6 +95,7 @@ type explorer struct {
 	outcomes   map[uint64]struct{}
 	vio        map[string]*Violation
 	vioOutcome map[uint64]struct{}
+	claimDir   string
 }
 
 func eventHash(res *Result) uint64 {
@@ -194,33 +195,52 @@ func (e *explorer) check(x *Exec, res *Result, choices []int32, devs int, counte
 	}
 }
 
-func (e *explorer) explore(prefix []int32, expect []uint32, devs, depth int) {
-	if e.stop {
-		return
+// A node of the schedule tree: the execution that follows parent's choices up to point i, takes
+// alternative alt there, and default choices afterwards.
+type parentRec struct {
+	choices []int32
+	sigs    []uint32
+}
+
+type node struct {
+	parent *parentRec
+	i      int
+	alt    int32
+	devs   int
+}
+
+func (n node) prefix() ([]int32, []uint32) {
+	if n.parent == nil {
+		return nil, nil
 	}
-	counted := true
-	if depth < e.level {
-		counted = e.shard == 0
-	} else if depth == e.level {
-		idx := e.counter
-		e.counter++
-		if int(idx%int64(e.nshards)) != e.shard {
-			return
-		}
-	}
+	np := make([]int32, n.i+1)
+	copy(np, n.parent.choices[:n.i])
+	np[n.i] = n.alt
+	return np, n.parent.sigs[:n.i+1]
+}
+
+func (e *explorer) expired() bool {
 	if !e.deadline.IsZero() && time.Now().After(e.deadline) || (e.maxExec > 0 && e.rep.Executions >= e.maxExec) {
 		e.stop = true
 		e.rep.Complete = false
-		return
+		return true
 	}
+	return false
+}
+
+// runNode executes one node, judges it, and returns its children within the deviation bound.
+func (e *explorer) runNode(n node, counted bool) []node {
+	if e.stop || e.expired() {
+		return nil
+	}
+	prefix, expect := n.prefix()
 	x, res := runOne(e.sc.Opts, prefix, expect, e.sc.Run, e.states, nil)
-	choices := make([]int32, len(x.points))
-	sigs := make([]uint32, len(x.points))
+	rec := &parentRec{choices: make([]int32, len(x.points)), sigs: make([]uint32, len(x.points))}
 	for i := range x.points {
-		choices[i] = x.points[i].Chosen
-		sigs[i] = x.points[i].Sig
+		rec.choices[i] = x.points[i].Chosen
+		rec.sigs[i] = x.points[i].Sig
 	}
-	e.check(x, res, choices[:trimDefault(choices)], devs, counted)
+	e.check(x, res, rec.choices[:trimDefault(rec.choices)], n.devs, counted)
 	if e.rep.Sample == nil && counted {
 		for _, ev := range res.Events {
 			e.rep.Sample = append(e.rep.Sample, ev.String())
@@ -229,22 +249,90 @@ func (e *explorer) explore(prefix []int32, expect []uint32, devs, depth int) {
 			e.rep.Sample = []string{}
 		}
 	}
+	var kids []node
 	pts := x.points
-	for i := len(prefix); i < len(pts) && !e.stop; i++ {
+	for i := len(prefix); i < len(pts); i++ {
 		p := &pts[i]
 		for alt := int32(1); alt < p.N; alt++ {
-			c := devs + int(p.Costs[alt])
+			c := n.devs + int(p.Costs[alt])
 			if c > e.bound {
 				continue
 			}
-			np := make([]int32, i+1)
-			copy(np, choices[:i])
-			np[i] = alt
-			e.explore(np, sigs[:i+1], c, depth+1)
+			kids = append(kids, node{parent: rec, i: i, alt: alt, devs: c})
+		}
+	}
+	return kids
+}
+
+// claim decides which shard explores frontier unit idx. With a claim directory (shared by the
+// worker processes of one run) units are taken dynamically, first come first served, through
+// exclusive file creation; without one they are dealt statically by a hash of the prefix.
+func (e *explorer) claim(idx int, k node) bool {
+	if e.claimDir != "" {
+		f, err := os.OpenFile(fmt.Sprintf("%s/b%d-%d", e.claimDir, e.bound, idx), os.O_CREATE|os.O_EXCL|os.O_WRONLY, 0o644)
+		if err != nil {
+			return false
+		}
+		f.Close()
+		return true
+	}
+	pf, _ := k.prefix()
+	h := uint64(14695981039346656037)
+	for _, c := range pf {
+		h = (h ^ uint64(uint32(c))) * 1099511628211
+	}
+	h ^= h >> 29
+	return int(h%uint64(e.nshards)) == e.shard
+}
+
+func (e *explorer) dfs(n node) {
+	for _, k := range e.runNode(n, true) {
+		if e.stop {
+			return
+		}
+		e.dfs(k)
+	}
+}
+
+// top: every shard runs the first levels of the tree identically (breadth first) until the
+// next level would exceed the duplication budget; that level's subtrees are then dealt to the
+// shards by a hash of their prefix and explored depth first.
+func (e *explorer) top() {
+	root := node{}
+	if e.nshards <= 1 {
+		e.dfs(root)
+		return
+	}
+	const budget = 3000
+	frontier := []node{root}
+	ran := 0
+	for !e.stop {
+		var next []node
+		for _, n := range frontier {
+			next = append(next, e.runNode(n, e.shard == 0)...)
+			ran++
 			if e.stop {
-				break
+				return
 			}
 		}
+		if len(next) == 0 {
+			return
+		}
+		if ran+len(next) > budget {
+			// largest subtrees (fewest deviations spent) first
+			sort.SliceStable(next, func(i, j int) bool { return next[i].devs < next[j].devs })
+			for idx, k := range next {
+				if !e.claim(idx, k) {
+					continue
+				}
+				e.dfs(k)
+				if e.stop {
+					return
+				}
+			}
+			return
+		}
+		frontier = next
 	}
 }
 
@@ -310,7 +398,7 @@ func WorkerMain() int {
 	for b := first; b <= bound; b++ {
 		e := &explorer{sc: sc, bound: b, shard: shard, nshards: nshards, level: envInt("VRT_LEVEL", 1), deadline: dl,
 			maxExec: int64(envInt("VRT_MAXEXEC", 0)), rep: rep, states: states, outcomes: outcomes, vio: vio,
-			vioOutcome: map[uint64]struct{}{}}
+			vioOutcome: map[uint64]struct{}{}, claimDir: os.Getenv("VRT_CLAIM_DIR")}
 		if b == 0 || nshards == 1 {
 			e.level = 0
 			if b == 0 && shard != 0 {
@@ -325,7 +413,7 @@ func WorkerMain() int {
 		// counters describe the last (deepest) pass; lower bounds are re-covered by it
 		rep.Executions, rep.Transitions, rep.DupExecutions = 0, 0, 0
 		rep.Status = map[string]int{}
-		e.explore(nil, nil, 0, 0)
+		e.top()
 		if rep.EngineError != "" || !rep.Complete {
 			break
 		}
